@@ -388,7 +388,7 @@ func mapObjectProperties(mm map[string][]byte, o *Object) (hasData bool, err err
 		}
 		hasData = true
 	}
-	if o.Bto != nil {
+	if len(o.Bto) > 0 {
 		if mm["bto"], err = gobEncodeItem(o.Bto); err != nil {
 			return hasData, err
 		}
@@ -400,7 +400,7 @@ func mapObjectProperties(mm map[string][]byte, o *Object) (hasData bool, err err
 		}
 		hasData = true
 	}
-	if o.BCC != nil {
+	if len(o.BCC) > 0 {
 		if mm["bcc"], err = gobEncodeItem(o.BCC); err != nil {
 			return hasData, err
 		}
